@@ -48,6 +48,8 @@ def build_rows(market):
                 continue        # a missing day (the first day of every file is always present)
             o, c = round(max(o, 0.05), dec), round(max(c, 0.05), dec)
             a = round(c * ratio, dec + 2)
+            if market.get('adj_round') is not None:
+                a = round(c * ratio, market['adj_round'])      # vendor-style: adjusted close quoted to cents
             nan_p = market.get('nan_p', 0.0)
             if nan_p and (j >= market.get('nan_from_row', 0)):
                 lead = j < 2 and market.get('nan_leading')
@@ -55,6 +57,8 @@ def build_rows(market):
                     o = None
                 if rng.random() < (0.5 if lead else nan_p):
                     c = a = None
+                elif market.get('nan_adj_only') and rng.random() < nan_p:
+                    a = None                                  # Adj Close blank on its own
             rows.append({'date': d.isoformat(), 'open': o, 'close': c, 'adj': a})
         out[sym] = rows
     return out
